@@ -263,7 +263,12 @@ def run_case(case):
                 except Exception as e:
                     counters["read_raised"] = counters.get("read_raised", 0) + 1
                     counters["read_raised:" + type(e).__name__] = counters.get("read_raised:" + type(e).__name__, 0) + 1
-                    continue   # a failing read is C01/C03/C06's business
+                    if case["src"] == "fc" and not o:
+                        # a dataset built here to be valid, read with default options: the handle's answers (its categories among them)
+                        # describe a read that does not exist
+                        res["failures"].append({"kind": "default_read_of_a_valid_dataset_raised", "src": "fc", "pandas_nulls": pandas_nulls,
+                                                "categories_answer": sorted(map(str, pf.categories)) if isinstance(pf.categories, (dict, list)) else str(pf.categories), **C.exc_shape(e)})
+                    continue   # (otherwise) a failing read is C01/C03/C06's business
                 counters["optionsets_compared"] = counters.get("optionsets_compared", 0) + 1
                 ctx = {"opts": {k_: ({c_: str(d_) for c_, d_ in v_.items()} if k_ == "dtypes" else v_) for k_, v_ in o.items()},
                        "pandas_nulls": pandas_nulls, "src": case["src"], "repeat": repeat}
@@ -340,6 +345,20 @@ def run_case(case):
                     feats.add(str(okey))
                 if pandas_nulls is False:
                     counters["pandas_nulls_false_compared"] = counters.get("pandas_nulls_false_compared", 0) + 1
+            # a handle opened with dtypes= (here: the first handle's own answer): what it reports and what it reads must still agree
+            if default_frame is not None and filecols and case["src"] != "fc":
+                try:
+                    pf2 = fastparquet.ParquetFile(path, pandas_nulls=pandas_nulls, dtypes=dict(pf.dtypes))
+                    d2 = dict(pf2.dtypes)
+                    g2 = pf2.to_pandas()
+                except Exception as e:
+                    counters["handle_given_dtypes_raised"] = counters.get("handle_given_dtypes_raised", 0) + 1
+                else:
+                    counters["handles_given_dtypes_compared"] = counters.get("handles_given_dtypes_compared", 0) + 1
+                    for c in g2.columns:
+                        if str(c) in d2 and not _dtype_matches(d2[str(c)], g2.dtypes[c]):
+                            res["failures"].append({"kind": "dtype_prediction", "column": str(c), "predicted": str(d2[str(c)]), "got": str(g2.dtypes[c]), "n_rows": len(g2),
+                                                    "opts": {"handle_opened_with_dtypes": "the answer of a plain handle"}, "pandas_nulls": pandas_nulls, "src": case["src"], "repeat": False})
         if case["src"] in ("c01", "c08"):
             _edited_handle(path, df, res, counters)
         res["outcome"] = "ok"
@@ -459,4 +478,4 @@ def _edited_handle(path, df, res, counters):
 
 
 def required(tier):
-    return {"optionsets_compared": 1500, "dtype_predictions": 5000, "pandas_nulls_false_compared": 500, "row_group_parts_predicted": 300, "reads_with_dtypes_mapping": 200, "edited_handle_steps_compared": 150, "files_with_nested_columns_before_flat_ones": 15, "edited_handle_appends_with_new_categories": 15, "edited_handle_appends_bringing_first_nulls": 5, "foreign_datasets_with_partly_dictionary_encoded_categoricals": 8}
+    return {"optionsets_compared": 1500, "dtype_predictions": 5000, "pandas_nulls_false_compared": 500, "row_group_parts_predicted": 300, "reads_with_dtypes_mapping": 200, "edited_handle_steps_compared": 150, "files_with_nested_columns_before_flat_ones": 15, "edited_handle_appends_with_new_categories": 15, "edited_handle_appends_bringing_first_nulls": 5, "foreign_datasets_with_partly_dictionary_encoded_categoricals": 8, "handles_given_dtypes_compared": 300}
